@@ -89,6 +89,8 @@ type Task struct {
 	// soft yield points (instrumented builds only): every softStride-th point at phase softPhase is
 	// taken, up to softBudget of them.
 	softStride, softPhase, softBudget int
+	// softSharedOnly: only the yield points of files that touch shared state count
+	softSharedOnly bool
 	softCount, SoftTaken              int
 	// lockDepth > 0 while the task is inside a critical section of the instrumented library: it is
 	// then never parked (neither at soft nor at hard yield points), because the task released next
@@ -111,7 +113,42 @@ func NoteUnlocked() {
 
 // SoftCfg selects which of a task's soft yield points (statement boundaries of the instrumented
 // library, see cmd/instr) become scheduler hand-offs. It is drawn before the tasks start.
-type SoftCfg struct{ Stride, Phase, Budget int }
+type SoftCfg struct {
+	Stride, Phase, Budget int
+	// SharedOnly spends the hand-offs in files that touch state shared between goroutines
+	// (sync., atomic., caches.): statement-level interleavings of exactly the code that can interfere
+	SharedOnly bool
+	// Meet (first element only) makes two tasks meet at one yield point of such a file and go on
+	// from there in step; no other soft yield points are taken then.
+	Meet *MeetCfg
+}
+
+// MeetCfg: the owner runs until its Triggers[i]-th shared-state yield point, which becomes the meeting
+// point of round i, and is parked there. As soon as another task reaches the same point, the two go
+// on from there alone for Spans[i] yield points, alternating strictly (Strict[i]) or chosen
+// uniformly: two callers inside the same piece of shared-state code at the same time, statement by
+// statement - the schedules under which check-then-act sequences break. If nobody comes, the owner
+// goes on when no other task can run.
+type MeetCfg struct {
+	Owner    int
+	Triggers []int
+	Spans    []int
+	Strict   []bool
+}
+
+// meetState is the run-time side of MeetCfg (touched by the one task that runs, or by the scheduler
+// while all tasks are parked).
+type meetState struct {
+	cfg     *MeetCfg
+	round   int
+	count   int
+	site    int
+	waiting bool
+	partner int
+	active  int
+	strict  bool
+	Met     int
+}
 
 // DrawSoft draws the soft-yield configuration of n tasks.
 func DrawSoft(t *tape.Tape, n int) []SoftCfg {
@@ -126,6 +163,27 @@ func DrawSoft(t *tape.Tape, n int) []SoftCfg {
 			c.Phase = t.Intn("soft.phase", st)
 		}
 		out[i] = c
+	}
+	switch t.Weighted("soft.mode", 3, 2, 3) {
+	case 1:
+		// all tasks take their hand-offs in the files that touch shared state only
+		for i := range out {
+			out[i].SharedOnly = true
+		}
+	case 2:
+		if n < 2 {
+			break
+		}
+		m := &MeetCfg{Owner: t.Intn("soft.meet.owner", n)}
+		for r, rounds := 0, 1+t.Intn("soft.meet.rounds", 8); r < rounds; r++ {
+			m.Triggers = append(m.Triggers, 1+t.Intn("soft.meet.trigger", []int{30, 300, 3000}[t.Intn("soft.meet.trigger-scale", 3)]))
+			m.Spans = append(m.Spans, 8+t.Intn("soft.meet.span", 120))
+			m.Strict = append(m.Strict, t.Bool("soft.meet.strict"))
+		}
+		for i := range out {
+			out[i].Stride = 0
+		}
+		out[0].Meet = m
 	}
 	return out
 }
@@ -144,7 +202,61 @@ var inStatementProbe bool
 
 // SoftYield is the hook behind verifyield.Y(): a hand-off point between two statements of the
 // instrumented library. Outside a scheduled section it does nothing.
-func SoftYield() {
+// SiteDump (developer aid) sees every shared-state yield point a task passes.
+var SiteDump func(task, site int)
+
+func SoftYield() { softYield(false) }
+
+// SoftYieldShared is the hook behind verifyield.YS().
+func SoftYieldShared(site int) {
+	if SiteDump != nil {
+		if t := (*Task)(atomic.LoadPointer(&curTask)); t != nil {
+			SiteDump(t.ID, site)
+		}
+	}
+	if t := (*Task)(atomic.LoadPointer(&curTask)); t != nil && t.sched.meet.cfg != nil {
+		t.sched.meetYield(t, site)
+	}
+	softYield(true)
+}
+
+func (s *Sched) meetYield(t *Task, site int) {
+	m := &s.meet
+	if t.lockDepth > 0 {
+		return
+	}
+	switch {
+	case m.active > 0:
+		if t.ID != m.cfg.Owner && t.ID != m.partner {
+			return
+		}
+		m.active--
+		if m.active == 0 {
+			m.nextRound()
+		}
+		t.Yield()
+	case m.waiting:
+		if t.ID != m.cfg.Owner && site == m.site {
+			m.waiting, m.partner = false, t.ID
+			m.active, m.strict = m.cfg.Spans[m.round], m.cfg.Strict[m.round]
+			m.Met++
+			t.Yield()
+		}
+	case t.ID == m.cfg.Owner && m.round < len(m.cfg.Triggers):
+		m.count++
+		if m.count >= m.cfg.Triggers[m.round] {
+			m.site, m.waiting = site, true
+			t.Yield()
+		}
+	}
+}
+
+func (m *meetState) nextRound() {
+	m.round++
+	m.count, m.site, m.waiting, m.active = 0, 0, false, 0
+}
+
+func softYield(shared bool) {
 	if p := StatementProbe; p != nil && !inStatementProbe {
 		inStatementProbe = true
 		p()
@@ -152,6 +264,9 @@ func SoftYield() {
 	}
 	t := (*Task)(atomic.LoadPointer(&curTask))
 	if t == nil {
+		return
+	}
+	if t.softSharedOnly && !shared {
 		return
 	}
 	t.softCount++
@@ -195,7 +310,11 @@ type Sched struct {
 	Trace    []uint8
 	Switches int
 	Steps    int
+	meet     meetState
 }
+
+// Met is the number of times two tasks met at one yield point (MeetCfg).
+func (s *Sched) Met() int { return s.meet.Met }
 
 // New creates a scheduler drawing from t.
 func New(t *tape.Tape) *Sched {
@@ -212,10 +331,14 @@ func (s *Sched) Run(fns []func(*Task)) []*Task {
 	defer syscall.Close(s.ctl[1])
 	var wg sync.WaitGroup
 	s.tasks = nil
+	s.meet = meetState{}
+	if len(s.Soft) > 0 && s.Soft[0].Meet != nil && s.Soft[0].Meet.Owner < len(fns) {
+		s.meet.cfg = s.Soft[0].Meet
+	}
 	for i := range fns {
 		t := &Task{ID: i, sched: s}
 		if i < len(s.Soft) {
-			t.softStride, t.softPhase, t.softBudget = s.Soft[i].Stride, s.Soft[i].Phase, s.Soft[i].Budget
+			t.softStride, t.softPhase, t.softBudget, t.softSharedOnly = s.Soft[i].Stride, s.Soft[i].Phase, s.Soft[i].Budget, s.Soft[i].SharedOnly
 		}
 		if err := syscall.Pipe(t.wake[:]); err != nil {
 			panic("sched: pipe: " + err.Error())
@@ -252,8 +375,40 @@ func (s *Sched) Run(fns []func(*Task)) []*Task {
 				runnable = append(runnable, i)
 			}
 		}
+		if m := &s.meet; m.cfg != nil {
+			if m.active > 0 && (done[m.cfg.Owner] || done[m.partner]) {
+				m.nextRound()
+			}
+			if m.waiting {
+				// the owner waits at the meeting point while anybody else can run
+				if len(runnable) > 1 && !done[m.cfg.Owner] {
+					var others []int
+					for _, r := range runnable {
+						if r != m.cfg.Owner {
+							others = append(others, r)
+						}
+					}
+					runnable = others
+				} else {
+					m.nextRound()
+				}
+			}
+		}
 		next := runnable[0]
-		if len(runnable) > 1 && draws < s.MaxDraws {
+		if m := &s.meet; m.cfg != nil && m.active > 0 {
+			// the two that met go on alone, in step
+			a, b := m.cfg.Owner, m.partner
+			switch {
+			case m.strict && cur == a:
+				next = b
+			case m.strict:
+				next = a
+			case s.t.Intn("sched.meet.pick", 2) == 0:
+				next = a
+			default:
+				next = b
+			}
+		} else if len(runnable) > 1 && draws < s.MaxDraws {
 			switch s.Policy {
 			case PolicyUniform:
 				next = runnable[s.t.Intn("sched.pick", len(runnable))]
